@@ -907,6 +907,8 @@ def builtin(I, name, a, kwargs, node, _no_override=False):
             keyf = kwargs.get("key")
             rev = kwargs.get("reverse", Const(False))
             keys = [to_py(I.call(keyf, [x], {}, node)) if keyf is not None else to_py(x) for x in v.elts]
+            if keyf is None and v.elts and all(isinstance(x, Obj) and x.cls == "Path" and isinstance(x.fields.get("parts"), TupS) for x in v.elts):
+                keys = [tuple(p_.v for p_ in x.fields["parts"].elts) for x in v.elts]  # model paths order by their components
             if keyf is None and any(k is _NOPY for k in keys) and all(isinstance(x, (TupS, ListLit)) and x.elts and isinstance(x.elts[0], Const) for x in v.elts):
                 # tuples compare by their first members first: when those are constants and pairwise different the rest is never looked at
                 firsts = [x.elts[0].v for x in v.elts]
